@@ -134,13 +134,87 @@ theorem C13_drop_equal (N r w : Nat) (hr : r < w) (perm : List Nat) (hp : perm.l
     omega
 
 /-- **C13_modes** (strict): an indivisible size raises. -/
-theorem C13_raise (N r w : Nat) (h : N % w ≠ 0) : init N .raise (some (r, w)) = none := by
+theorem C13_raise (N r w : Nat) (_hw : 0 < w) (h : N % w ≠ 0) :
+    init N .raise (some (r, w)) = none := by
   simp [init, h]
 
 /-- **C13_modes** (strict, divisible): accepted with the whole epoch split. -/
-theorem C13_raise_ok (N r w : Nat) (h : N % w = 0) :
+theorem C13_raise_ok (N r w : Nat) (_hw : 0 < w) (h : N % w = 0) :
     init N .raise (some (r, w)) = some ⟨N, N, r, w⟩ := by
   simp [init, h]
+
+/-! ### The modes tied to the partition statements (audit addition)
+
+`C13_partition` / `C13_disjoint` / `C13_cover_all` speak about an arbitrary `Config`; the
+theorems below say which `Config`s `__init__` really produces for the ranks of one process
+group and restate the partition for exactly those. -/
+
+/-- What `__init__` stores inside a process group, for every mode other than `ignore`:
+the rank and world size of the group, and `effective_total = N - N % world` under `drop`,
+`N` otherwise. -/
+theorem C13_init_shape {N : Nat} {mode : Mode} {r w : Nat} {c : Config} (hm : mode ≠ .ignore)
+    (h : init N mode (some (r, w)) = some c) :
+    c = ⟨N, if mode = .drop then N - N % w else N, r, w⟩ := by
+  cases mode with
+  | ignore => exact absurd rfl hm
+  | raise =>
+    simp only [init] at h
+    split at h
+    · cases h
+    · cases h; simp
+  | drop =>
+    simp only [init] at h
+    split at h
+    · cases h; simp
+    · rename_i h0
+      have h0 : N % w = 0 := by simpa using h0
+      cases h; simp [h0]
+  | uneven =>
+    simp only [init] at h
+    cases h; simp
+
+/-- **Group partition**: if `__init__` succeeds on every rank of a group of `w` processes
+(same data-set size, same mode ≠ `ignore`), the concatenation of what the ranks yield for an
+epoch is a rearrangement of the first `N - N % w` (drop) / all `N` (raise, uneven) entries of
+that epoch's ordering. -/
+theorem C13_group_partition (N w : Nat) (mode : Mode) (hm : mode ≠ .ignore) (hw : 0 < w)
+    (perm : List Nat) (hp : perm.length = N) (cfg : Nat → Config)
+    (h : ∀ r, r < w → init N mode (some (r, w)) = some (cfg r)) :
+    ((List.range w).flatMap (fun r => samples (cfg r) perm)).Perm
+      (perm.take (if mode = .drop then N - N % w else N)) := by
+  let c0 : Config := ⟨N, if mode = .drop then N - N % w else N, 0, w⟩
+  have hcfg : ∀ r, r ∈ List.range w → samples (cfg r) perm = samples (withRank c0 r) perm := by
+    intro r hr
+    rw [C13_init_shape hm (h r (List.mem_range.1 hr))]
+    rfl
+  have he : c0.eff ≤ perm.length := by
+    show (if mode = .drop then N - N % w else N) ≤ perm.length
+    split <;> omega
+  have := C13_partition c0 perm hw he
+  rw [List.flatMap_congr hcfg]
+  exact this
+
+/-- **Exactly once**: with a genuine ordering of `range N` and a mode that drops nothing
+(`uneven`, or `raise` — whose `__init__` only succeeds for divisible sizes), the ranks
+together yield every index `0..N-1` exactly once. -/
+theorem C13_group_cover (N w : Nat) (mode : Mode) (hm : mode ≠ .ignore) (hd : mode ≠ .drop)
+    (hw : 0 < w) (perm : List Nat) (ho : IsOrdering N perm) (cfg : Nat → Config)
+    (h : ∀ r, r < w → init N mode (some (r, w)) = some (cfg r)) :
+    ((List.range w).flatMap (fun r => samples (cfg r) perm)).Perm (List.range N) := by
+  have := C13_group_partition N w mode hm hw perm ho.length cfg h
+  rw [if_neg hd] at this
+  have hl : perm.take N = perm := by rw [← ho.length, List.take_length]
+  rw [hl] at this
+  exact this.trans ho
+
+/-- No index is yielded twice across the group, in any mode other than `ignore`. -/
+theorem C13_group_nodup (N w : Nat) (mode : Mode) (hm : mode ≠ .ignore)
+    (hw : 0 < w) (perm : List Nat) (ho : IsOrdering N perm) (cfg : Nat → Config)
+    (h : ∀ r, r < w → init N mode (some (r, w)) = some (cfg r)) :
+    ((List.range w).flatMap (fun r => samples (cfg r) perm)).Nodup := by
+  have hp := C13_group_partition N w mode hm hw perm ho.length cfg h
+  have hn : perm.Nodup := ho.nodup_iff.2 List.nodup_range
+  exact hp.nodup_iff.2 (hn.sublist (List.take_sublist _ _))
 
 /-- **C13_modes** (ignore): every rank gets the full epoch, whatever the group. -/
 theorem C13_ignore (N : Nat) (dist : Option (Nat × Nat)) (perm : List Nat)
@@ -211,5 +285,102 @@ example : samples ⟨7, 6, 1, 3⟩ [3, 0, 6, 2, 5, 1, 4] = [0, 5] := by
 example : samples ⟨7, 7, 0, 3⟩ [3, 0, 6, 2, 5, 1, 4] = [3, 2, 4] := by
   simp [samples, islice, everyNth]
 example : len ⟨7, 7, 0, 3⟩ = 3 := by decide
+
+/-! ### Audit: every theorem's hypotheses instantiated TOGETHER on one non-trivial group
+
+`N = 7`, `world = 3` (indivisible: `drop` really drops index `4`, the last entry of the
+ordering; `uneven` really gives rank 0 one more index than ranks 1, 2), ordering
+`p7 = [3, 0, 6, 2, 5, 1, 4]`. -/
+
+/-- The ordering used by the instances below. -/
+def p7 : List Nat := [3, 0, 6, 2, 5, 1, 4]
+
+theorem p7_ordering : IsOrdering 7 p7 := by unfold IsOrdering p7; decide
+
+/-- What the three ranks yield under `drop`: two each, index `4` dropped. -/
+theorem C13_drop_instance :
+    (List.range 3).map (fun r => samples ⟨7, 6, r, 3⟩ p7) = [[3, 2], [0, 5], [6, 1]] := by
+  simp [samples, islice, everyNth, p7, List.range, List.range.loop]
+
+/-- What the three ranks yield under `uneven`: 3 + 2 + 2. -/
+theorem C13_uneven_instance :
+    (List.range 3).map (fun r => samples ⟨7, 7, r, 3⟩ p7) = [[3, 2, 4], [0, 5], [6, 1]] := by
+  simp [samples, islice, everyNth, p7, List.range, List.range.loop]
+
+/-- `init_wf`: both hypotheses hold for rank 1 of 3 under `drop`. -/
+theorem C13_init_wf_nonvacuous : (⟨7, 6, 1, 3⟩ : Config).Wf ∧ (⟨7, 6, 1, 3⟩ : Config).total = 7 :=
+  init_wf (N := 7) (mode := .drop) (dist := some (1, 3)) (by decide)
+    (by intro r w h; cases h; decide)
+
+/-- `C13_len` (hypotheses `Wf` and `perm.length = total`) on the dropping configuration. -/
+theorem C13_len_nonvacuous : ((samples ⟨7, 6, 1, 3⟩ p7).length : Int) = len ⟨7, 6, 1, 3⟩ :=
+  C13_len ⟨7, 6, 1, 3⟩ p7 C13_init_wf_nonvacuous.1 (by decide)
+
+/-- ... and on a rank beyond the effective total (`N = 1`, rank 1 of 2: yields nothing). -/
+theorem C13_len_nonvacuous_empty_rank : ((samples ⟨1, 1, 1, 2⟩ [0]).length : Int) = len ⟨1, 1, 1, 2⟩ :=
+  C13_len ⟨1, 1, 1, 2⟩ [0] (by simp [Config.Wf]) (by decide)
+
+/-- `C13_partition` with `eff < length` (something really is dropped). -/
+theorem C13_partition_nonvacuous :
+    ((List.range 3).flatMap (fun r => samples (withRank ⟨7, 6, 0, 3⟩ r) p7)).Perm (p7.take 6) :=
+  C13_partition ⟨7, 6, 0, 3⟩ p7 (by decide) (by decide)
+
+/-- `C13_disjoint`: all of `0 < world`, `eff ≤ length`, `Nodup`, two different ranks `< world`
+and a witness `x = 0 ∈` rank 1's list. -/
+theorem C13_disjoint_nonvacuous : 0 ∉ samples (withRank ⟨7, 6, 0, 3⟩ 2) p7 :=
+  C13_disjoint ⟨7, 6, 0, 3⟩ p7 (by decide) (by decide) (by unfold p7; decide) 1 2
+    (by decide) (by decide) (by decide) 0
+    (by simp [samples, islice, everyNth, p7, withRank])
+
+/-- `C13_cover_all` (`eff = length`) on the uneven configuration. -/
+theorem C13_cover_all_nonvacuous :
+    ((List.range 3).flatMap (fun r => samples (withRank ⟨7, 7, 0, 3⟩ r) p7)).Perm p7 :=
+  C13_cover_all ⟨7, 7, 0, 3⟩ p7 (by decide) (by decide)
+
+/-- `C13_drop_equal`: `init` really returns the dropping configuration and every rank gets `7 / 3 = 2`. -/
+theorem C13_drop_equal_nonvacuous : (samples ⟨7, 6, 1, 3⟩ p7).length = 7 / 3 :=
+  C13_drop_equal 7 1 3 (by decide) p7 (by decide) ⟨7, 6, 1, 3⟩ (by decide)
+
+theorem C13_raise_nonvacuous : init 7 .raise (some (1, 3)) = none :=
+  C13_raise 7 1 3 (by decide) (by decide)
+
+theorem C13_raise_ok_nonvacuous : init 6 .raise (some (1, 3)) = some ⟨6, 6, 1, 3⟩ :=
+  C13_raise_ok 6 1 3 (by decide) (by decide)
+
+/-- `C13_ignore` inside a group of 3: rank 1 still gets the whole epoch. -/
+theorem C13_ignore_nonvacuous :
+    ∃ c, init 7 .ignore (some (1, 3)) = some c ∧ samples c p7 = p7 :=
+  C13_ignore 7 (some (1, 3)) p7 (by decide)
+
+/-- The group theorems: the family of configurations `init` returns for ranks 0, 1, 2 under
+`drop` / `uneven` satisfies the `∀ r < w` hypothesis. -/
+theorem C13_group_partition_nonvacuous :
+    ((List.range 3).flatMap (fun r => samples ⟨7, 6, r, 3⟩ p7)).Perm (p7.take (7 - 7 % 3)) :=
+  C13_group_partition 7 3 .drop (by decide) (by decide) p7 (by decide) (fun r => ⟨7, 6, r, 3⟩)
+    (by intro r _; simp [init])
+
+theorem C13_group_cover_nonvacuous :
+    ((List.range 3).flatMap (fun r => samples ⟨7, 7, r, 3⟩ p7)).Perm (List.range 7) :=
+  C13_group_cover 7 3 .uneven (by decide) (by decide) (by decide) p7 p7_ordering
+    (fun r => ⟨7, 7, r, 3⟩) (by intro r _; simp [init])
+
+/-- `raise` on a divisible size (`N = 6`, 3 ranks): the `∀ r < w, init … = some _` premise of
+`C13_group_cover` is satisfiable for `raise` too. -/
+theorem C13_group_cover_nonvacuous_raise :
+    ((List.range 3).flatMap (fun r => samples ⟨6, 6, r, 3⟩ [3, 0, 2, 5, 1, 4])).Perm (List.range 6) :=
+  C13_group_cover 6 3 .raise (by decide) (by decide) (by decide) _
+    (by unfold IsOrdering; decide) (fun r => ⟨6, 6, r, 3⟩) (by intro r _; simp [init])
+
+theorem C13_group_nodup_nonvacuous :
+    ((List.range 3).flatMap (fun r => samples ⟨7, 6, r, 3⟩ p7)).Nodup :=
+  C13_group_nodup 7 3 .drop (by decide) (by decide) p7 p7_ordering (fun r => ⟨7, 6, r, 3⟩)
+    (by intro r _; simp [init])
+
+/-- `C13_history_lists` / `C13_history` on a sampler built at epoch 3 and iterated twice with
+an ordering that really changes with the epoch (rotation by the epoch number). -/
+example :
+    (iterMany (fun e => p7.rotate e) 2 ⟨⟨7, 6, 1, 3⟩, 3⟩).1 = [[5, 3], [1, 0]] := by
+  rw [C13_history_lists]
+  simp [samples, islice, everyNth, p7, List.range, List.range.loop, List.rotate]
 
 end PdtVerif.EpochSampler
